@@ -191,6 +191,7 @@ func c03Serialize(addrLen, dataLen, bufLen int) c03lib.Outcome {
 
 func c03Enumerate(sh *evidence.Shard) {
 	r := c03lib.NewRunner(sh, c03Unit, c03Exec)
+	defer r.Close()
 	th := r.Thorough()
 
 	// --- ParseUDPMessage -------------------------------------------------------------------
